@@ -45,7 +45,7 @@ def tlc_phase(ctx):
 
     def one(job):
         c, kw = job
-        r = ctx.tlc("Layout", c, workers=w, timeout=3000, heap="2g" if ctx.quick else "4g", **kw)
+        r = L.tlc_cached(ctx, "Layout", c, workers=w, timeout=3000, heap="2g" if ctx.quick else "4g", **kw)
         if not r.ok:
             raise vlib.MachineryError("model %s rejected / generator failed (rc=%s):\n%s" % (c, r.rc, r.out[-4000:]))
         return c, r
@@ -83,7 +83,9 @@ def emit_cases(ctx, res):
     inp = ctx.path("layout_in.ndjson")
     with open(inp, "w") as f:
         f.write("\n".join(terms) + "\n")
-    e = ctx.tlc_must_pass("Layout", "MC_Layout_eval.cfg", workers=12, env={"LAYOUT_IN": inp}, timeout=3000)
+    e = L.tlc_cached(ctx, "Layout", "MC_Layout_eval.cfg", workers=12, env={"LAYOUT_IN": inp}, timeout=3000)
+    if not e.ok:
+        raise vlib.MachineryError("evaluation run rejected:\n%s" % e.out[-3000:])
     ev = [json.loads(v) for v in e.vcases]
     if len(ev) != len(terms):
         raise vlib.MachineryError("eval run returned %d of %d cases" % (len(ev), len(terms)))
@@ -102,7 +104,8 @@ class Item:
     def __init__(self, k, case, rng):
         self.k, self.case = k, case
         t = case["t"]
-        self.cp = L.Rendered(t, "T%d" % k, "m%d_" % k, packed=rng.choice(L.PACKED_SPELL), alignas=rng.choice(["_Alignas", "alignas"]))
+        self.cp = L.Rendered(t, "T%d" % k, "m%d_" % k, packed=rng.choice(L.PACKED_SPELL), alignas=rng.choice(["_Alignas", "alignas"]),
+                             align_by_type=rng.random() < 0.3)
         self.au = L.Rendered(t, "T%d" % k, "m%d_" % k)
         nodes = case["exp0"]["nodes"]
         self.plain = []     # (node index, designator)
@@ -334,6 +337,19 @@ def enum_expected(c):
     return [e["size"], e["size"], 1 if e["signed"] else 0] + [1 if x == e["base"] else 0 for x in E_CANDS]
 
 
+def gcc_applicable(c):
+    """gcc 12 predates C23: no fixed underlying types, and an implicit enumerator beyond INT_MAX is an error there"""
+    if c["fixed"] != "none":
+        return False
+    prev = -1
+    for e in c["es"]:
+        v = real_value(e["v"]) if e["x"] else prev + 1
+        if not e["x"] and v > 2**31 - 1:
+            return False
+        prev = v
+    return True
+
+
 def flow_a_enums(ctx, objdir, res):
     tier = "quick" if ctx.quick else "thorough"
     total = 0
@@ -360,8 +376,8 @@ def flow_a_enums(ctx, objdir, res):
             for target in targets + ([None] if cs else []):
                 src = ""
                 for k, c in b:
-                    if target is None and c["fixed"] != "none":
-                        continue        # gcc 12 has no fixed underlying types in C
+                    if target is None and not gcc_applicable(c):
+                        continue
                     src += enum_src(k, c)
                     for j, (x, want) in enumerate(zip(enum_exprs(k), enum_expected(c))):
                         src += '_Static_assert((%s) == %d, "A:%d:%d");\n' % (x, want, k, j)
@@ -505,6 +521,16 @@ def flow_b(ctx, batches):
     for p in sorted(glob.glob(os.path.join(vlib.REPO, "test", "*.c"))):
         m = re.search(r"\+([a-z0-9_-]+)\.c$", p)
         inputs.append((m.group(1) if m and m.group(1) in vlib.TARGETS else "x86_64-sysv", p, None))
+    # cproc's own sources (cc.h's structs and the system headers they pull in), preprocessed by the host cpp
+    own = sorted(glob.glob(os.path.join(vlib.REPO, "*.c")))
+    if ctx.quick:
+        own = [p for p in own if os.path.basename(p) in ("decl.c", "qbe.c", "driver.c")]
+    for p in own:
+        rc, out, err = vlib.run(["cpp", "-P", "-U__GNUC__", "-U__GNUC_MINOR__", "-D__STDC_NO_ATOMICS__", "-D__STDC_NO_COMPLEX__", "-U__SIZEOF_INT128__",
+                                 "-U__PIC__", "-D__extension__=", "-I", vlib.REPO, p], timeout=60)
+        if rc == 0:
+            inputs.append(("x86_64-sysv", None, out.decode("utf-8", "replace")))
+    nown = len(inputs)
     nb = 6 if ctx.quick else 60
     step = max(1, len(batches) // nb)
     for b in batches[::step][:nb]:
